@@ -40,6 +40,10 @@ Lits == << <<50>>, <<48, 46, 53>>, <<53, 48, 37>>, <<53, 69, 45, 49>>, <<50, 46,
        \*    2.5%                0.5%                1E+1%                     200%
 NLit == 10
 
+\* whole numbers that are not spelt as integers: 200%  2E+0  3E+0  2.0  300%  1E+0
+WholeLits == << <<50, 48, 48, 37>>, <<50, 69, 43, 48>>, <<51, 69, 43, 48>>, <<50, 46, 48>>, <<51, 48, 48, 37>>, <<49, 69, 43, 48>> >>
+NWhole == 6
+
 NegIf(b, x) == IF b THEN Neg(x) ELSE x
 
 RECURSIVE RenderRun(_, _)
@@ -90,6 +94,21 @@ InitCase ==
               dec == NumLit(NatToCodes(m \div 100) \o <<46>> \o <<48 + ((m % 100) \div 10), 48 + (m % 10)>>)
               run == IF sw THEN <<dec, "=", pct>> ELSE <<pct, "=", dec>>
           IN case = Mk("lit-pct-eq", Climb(run), <<61>> \o RenderRun(run, Style0), 1)
+  \/ /\ "lit" \in Families          \* a NEGATIVE base under a whole exponent that is not spelt as an integer: (-2)^200% is 4
+     /\ \E j \in 1..NWhole, o2 \in Ops, e \in {1, 2}, ng \in BOOLEAN :
+          LET run == <<IF e = 1 THEN Neg(A1) ELSE A1, "^", NegIf(ng, NumLit(WholeLits[j])), o2, C1>>
+          IN case = Mk("lit-negbase", Climb(run), <<61>> \o RenderRun(run, Style0), e)
+  \/ /\ "lit" \in Families          \* ... or that is computed: -A1^(B1*C1/D1) with B1*C1/D1 = 2, -A1^(B1/D1) = -A1^1
+     /\ \E o2 \in Ops, q \in 1..3 :
+          LET ex == CASE q = 1 -> Bin("/", Bin("*", B1, C1), D1) [] q = 2 -> Bin("/", B1, D1) [] q = 3 -> Bin("-", Bin("/", B1, D1), D1)
+              t == Bin(o2, Bin("^", Neg(A1), ex), C1)
+          IN case = Mk("lit-negbase-quot", t, Formula(MinParen(t), Style0), 4)
+  \/ /\ "lit" \in Families          \* an error operand decides the result whatever the other operand is: 0*(3/0) and 0^(3/0) are #DIV/0!
+     /\ \E o1 \in Ops, o2 \in Ops, s \in 1..3 :
+          LET t == CASE s = 1 -> Bin(o1, B1, Bin(o2, A1, B1))              \* B1 = 0 in Envs[3]
+                     [] s = 2 -> Bin(o1, Bin(o2, A1, B1), B1)
+                     [] s = 3 -> Bin(o1, Bin("-", A1, A1), Bin(o2, C1, B1))
+          IN case = Mk("zero-operand", t, Formula(MinParen(t), Style0), 3)
   \/ /\ "gap" \in Families
      /\ \E o1 \in Ops, o2 \in Ops, cls \in {"lead", "trail", "opl", "opr"}, g \in 1..3 :
           LET run == <<A1, o1, B1, o2, C1>>
@@ -115,7 +134,7 @@ Spec == Init /\ [][Next]_vars
 Done == res # Pending
 
 \* ---- laws of the grammar, checked on every enumerated tree ----
-IsRunKind == case.kind \in {"pair", "triple", "lit", "gap", "quad"}
+IsRunKind == case.kind \in {"pair", "triple", "lit", "lit-negbase", "gap", "quad"}
 \* the shunting-yard design with Excel's table builds the tree the grammar defines
 LawShuntingYard == IsRunKind => ShuntingYard(Flatten(case.tree), ExcelTable) = case.tree
 \* a tree needs no parentheses exactly when its flat rendering denotes it
